@@ -534,6 +534,13 @@ def translate_emissions(src):
 ALL_EMIT_NAMES = [coq_name(cls, m) for fn, cls, meths in EMIT_FUNCS for m in meths]
 
 
+# every source function whose control flow is regenerated on every run (tools/coverage_map.py reads this); the closures
+# nested in the directive methods are NOT translated: they are pinned in pins_closures.json
+TRANSLATED = (['pyramid/config/%s:%s.%s' % (fn, cls, m) for fn, cls, meths in EMIT_FUNCS for m in meths] +
+              ['pyramid/config/actions.py:ActionState.action', 'pyramid/config/actions.py:ActionConfiguratorMixin.action',
+               'pyramid/config/actions.py:ActionConfiguratorMixin.commit'])
+
+
 def translate_tree(src):
     """-> (coq text of all generated definitions, problems, summary)"""
     defs, problems = translate_emissions(src)
